@@ -21,29 +21,29 @@ import (
 type mapEntry struct{ key, val string }
 
 type Engine struct {
-	repo       string
-	verifDir   string
-	outDir     string
-	prog       *ssa.Program
-	pkgs       []*packages.Package
-	ssaPkgs    []*ssa.Package
-	types      *TypeReg
-	specs      *SpecDB
-	fnByKey    map[string][]*ssa.Function
-	allFns     []*ssa.Function
-	useTypeInv bool // object invariants (typeinv) are assumed: set in the runs that verify the constructors
-	closures   map[string]*closureInfo
-	globalIDs  map[string]int
-	mapLits    map[string][]mapEntry
+	repo         string
+	verifDir     string
+	outDir       string
+	prog         *ssa.Program
+	pkgs         []*packages.Package
+	ssaPkgs      []*ssa.Package
+	types        *TypeReg
+	specs        *SpecDB
+	fnByKey      map[string][]*ssa.Function
+	allFns       []*ssa.Function
+	useTypeInv   bool // object invariants (typeinv) are assumed: set in the runs that verify the constructors
+	closures     map[string]*closureInfo
+	globalIDs    map[string]int
+	mapLits      map[string][]mapEntry
 	constGlobals map[string]string
-	specErrors map[string]bool
-	loadErrors []string
-	liveCache  map[*ssa.Function]map[*ssa.BasicBlock]map[ssa.Value]bool
-	instIfaces map[string]*types.Named
+	specErrors   map[string]bool
+	loadErrors   []string
+	liveCache    map[*ssa.Function]map[*ssa.BasicBlock]map[ssa.Value]bool
+	instIfaces   map[string]*types.Named
 	verdictDecls []string
-	selfIface  types.Type
-	exemptNext bool
-	sentinelSet map[*ssa.Function]bool
+	selfIface    types.Type
+	exemptNext   bool
+	sentinelSet  map[*ssa.Function]bool
 }
 
 // liveIn returns the set of SSA values live on entry to block b (phi results of b included:
